@@ -516,6 +516,16 @@ def check(ctx):
     we = [w for w in ctx.writers("_encoder", modules=[TXT]) if w[3] == "assign" and w[0] is not None]
     okw = all(w[0].qual == "TextSendStream.__post_init__" for w in we) and len(we) == 1
     ctx.ob("R16-d", tsp, "the encoder is never replaced", okw, detail="" if okw else f"_encoder assigned in {[w[0].qual for w in we]}", by=("writer table",))
+    # the codec objects are only ever fed: resetting or re-creating them in mid-stream forgets the byte order mark already sent / a
+    # partially received character
+    for cls_, fld, okcalls, okfuncs in (("TextSendStream", "_encoder", {"encode"}, None), ("TextReceiveStream", "_decoder", {"decode"}, {"reset": "TextReceiveStream.aclose"})):
+        for f_ in ctx.repo.methods(cls_, TXT).values():
+            for n_ in own_walk(f_.node):
+                if isinstance(n_, ast.Call) and isinstance(n_.func, ast.Attribute) and ast.unparse(n_.func.value) == f"self.{fld}":
+                    m_ = n_.func.attr
+                    ok_ = m_ in okcalls or (okfuncs and okfuncs.get(m_) == f_.qual)
+                    ctx.ob("R16-d", f_, f"the only operations on {cls_}.{fld} are feeding it" + (" (and the reset when the stream is closed)" if okfuncs else ""), bool(ok_), node=stmt_of(n_),
+                           detail="" if ok_ else f"`{norm(stmt_of(n_))}` changes the codec state in mid-stream", by=(f"{fld}.{m_}",))
     encs = ctx.sites(ts, f"$E = self._encoder.encode({item})")
     if ctx.need("R16-d", ts, "`encoded = self._encoder.encode(item)`", len(encs), 1):
         ev = u(encs[0][1]["E"])
